@@ -5,6 +5,7 @@ import (
 	"slices"
 
 	"github.com/nulab/autog/internal/graph"
+	"github.com/nulab/autog/internal/verifhook"
 )
 
 type networkSimplexProcessor struct {
@@ -48,6 +49,7 @@ func execNetworkSimplex(g *graph.DGraph, params graph.Params) {
 		e = negCutValueTreeEdge(g.Edges)
 		i++
 	}
+	verifhook.NSDone(int(params.NetworkSimplexBalance), len(g.Nodes), i, maxitr, e != nil)
 	normalize(g)
 	switch params.NetworkSimplexBalance {
 	case 1:
